@@ -371,6 +371,54 @@ func (c *Campaign) Go() {
 		}
 		r.Merge(lcs[wk])
 	})
+	// what an aborted search leaves behind: on roots with one or two legal moves every hard budget
+	// k = 1..40 (the abort lands somewhere in the subtree of the only reply, mostly inside
+	// quiescence) is followed at once by a small complete search on the same engine, which must
+	// still find the move
+	ev.Parallel(c.Roots*2, func(wk, i int) {
+		rng := r.RNG(c.Stream+"-abort-then-search", i)
+		// exactly one legal move, and the opponent can capture something after it (so that there
+		// is a quiescence tree below the reply for the abort to land in)
+		var root Root
+		var kind string
+		found := false
+		for try := 0; try < 60 && !found; try++ {
+			root, kind = RandomRoot(rng, []string{"few-replies", "in-check", "dense", "in-check"}[(i+try)%4])
+			l := root.Pos.Legal()
+			if len(l) != 1 || root.Final() {
+				continue
+			}
+			nx := root.Pos.Make(l[0])
+			for _, m := range nx.Legal() {
+				if nx.Sq[m.To()] != 0 {
+					found = true
+					break
+				}
+			}
+		}
+		if !found {
+			return
+		}
+		lcs[wk].C["abort_then_search_roots"]++
+		tt := []int{32000, 1 << 20}[rng.IntN(2)]
+		s := search.New(tt)
+		cs := &Case{Kind: "abort-then-search", RootKind: kind, Start: root.Start.FEN(), Moves: root.MoveNames(), TTBytes: tt, Params: c.Params}
+		if i%2 == 0 {
+			// an exact entry of some other position under the root key: the first iteration takes its
+			// value, the aspiration window of the next one is narrow and far from the truth
+			cs.Poison = []PoisonEntry{{Move: rng.IntN(1 << 12), Depth: 1 + rng.IntN(8), Value: []int{-900, -300, 0, 300, 900, 1200}[rng.IntN(6)], Type: 2}}
+		}
+		for k := 1; k <= 40; k++ {
+			// nothing an earlier complete search stored may shield the subtree
+			s.Clear()
+			cs.Requests = nil
+			c.one(cs, &root, s, Request{Nodes: k}, lcs[wk], wk)
+			c.one(cs, &root, s, Request{Depth: 1 + k%2, Nodes: 20000}, lcs[wk], wk)
+			lcs[wk].C["searches_right_after_an_aborted_search"]++
+		}
+		r.DistinctStr("ats" + root.Pos.Key())
+		r.Merge(lcs[wk])
+	})
 	// the far ends of the search's own dimensions: iteration depths up to the ply limit with
 	// variations of 40-60 moves (only bare endgames get there within a node budget), and roots with
 	// more legal moves than any table indexed by the move count expects (several queens)
